@@ -39,7 +39,7 @@ SOLVER_INV = ["Refines", "Complete", "Terminates", "FreshIsFresh", "NodesAcyclic
 SOLVER_PROPS = ["CutCommits", "NoRetryLeftOfCut", "CutIsLocal"]
 SOLVER_CONST = {"Depth": 12, "ReAsks": 2, "MaxSteps": 4000, "Bug_ClauseLoopIgnoresCut": "FALSE",
                 "Bug_OrTailAfterCut": "FALSE", "Bug_NotStaysArmed": "FALSE"}
-for _s in ("andor", "cut", "not", "print", "lists", "alias", "time"):
+for _s in ("andor", "cut", "not", "print", "lists", "alias", "time", "anon"):
     JOBS["solver-" + _s] = dict(module="MC_Solver", constants=dict(SOLVER_CONST, Slice=_s), subst=BIP_SUBST,
                                 invariants=SOLVER_INV, properties=SOLVER_PROPS, constraint="WithinBudget",
                                 timeout={"quick": 1200, "thorough": 3600})
@@ -144,8 +144,8 @@ PROPS = {
     "C08": dict(jobs=["unify-sess", "unify-plain", "solver-alias", "trace-unify"], level="model_checking",
                 rule="all sessions of 2-3 unifications over variables/terms of the session universe plus all single unifications under aliasing priors; after every real unify() the returned substitution set is walked with a visited set",
                 assumptions=UNIFY_ASSUME),
-    "C09": dict(jobs=["unify-plain", "unify-sess", "unify-laws", "trace-unify"], level="model_checking",
-                rule="the cases of C06/C08 that contain $_ (argument, list element, list tail, nested); non-trivial as for C06",
+    "C09": dict(jobs=["unify-plain", "unify-sess", "unify-laws", "trace-unify", "solver-anon"], level="model_checking",
+                rule="(solver-anon: $_ in the search itself -- facts whose heads have $_ against goals with constants, goals with $_ against heads with constants, variables and $_, as queries and in rule bodies before and after goals that bind: the answers of the reference search) the cases of C06/C08 that contain $_ (argument, list element, list tail, nested); non-trivial as for C06",
                 assumptions=UNIFY_ASSUME),
     "C14": dict(jobs=["bip-cmp", "syntax-goals", "trace-bip"], level="model_checking",
                 rule="every comparison predicate x every ordered pair of operands (integers incl. -2^63 and 2^62, floats incl. -0.0 and fractions, ASCII/space/non-ASCII atoms, non-constants), literally and through variable chains; distinct by (predicate, operands, prior)",
